@@ -21,10 +21,11 @@ from vlib.core import Soft, Sub
 PROPERTY_ID = "C03"
 LEVEL = "exploration"
 RULE = (
-    "A case is a generated alignment (1-5 rows, 1-30 columns; DNA/RNA/protein with gaps, '?', degenerate symbols; rows with "
-    "leading/trailing gap runs and all-gap columns) and a history of 1-6 operations drawn from in-range slicing, rc, take_seqs, "
+    "A case is a generated alignment (1-5 rows, 1-30 columns; DNA/RNA/protein with gaps, '?', degenerate symbols - the full IUPAC "
+    "set for nucleic acids; rows with leading/trailing gap runs and all-gap columns) and a history of 1-6 operations drawn from "
+    "in-range slicing, integer column indexing aln[i] for -len <= i < len, rc, take_seqs, "
     "take_positions(+negate), take_positions_if, omit_gap_pos, no_degenerates, get_degapped_relative_to, sample with given "
-    "indices, concatenation (with a second alignment or with itself), to_type, to_dna/to_rna, with_gaps_from, copy/deepcopy and "
+    "indices, concatenation (with a second alignment of the same or of the other class, or with itself), to_type, to_dna/to_rna, with_gaps_from, copy/deepcopy and "
     "a final degap. The history is applied to both alignment classes and to the row model; after each step names, length, "
     "to_dict, gapped and degapped rows are compared, and read-only methods of the result are compared with a fresh object built "
     "from the result's rows. Non-trivial = history of >= 2 operations on the annotatable class containing a slice or rc followed "
@@ -45,6 +46,8 @@ RULE = (
 ASSUMPTIONS = [
     "slice bounds are in range (-len <= a < b <= len) and unit stride: the annotatable class documents NotImplementedError for strides; out-of-range slicing of sequences is C01",
     "omit_gap_pos / no_degenerates return None when nothing remains (documented); the history ends there",
+    "aln[i] with an integer is a one-column alignment {name: row[i]} (cookbook 'Getting a single column from an alignment'); negative i counts from the end as for the documented negative slice bounds and as the array-backed class (numpy) does; |i| beyond the length is not generated",
+    "aln + other with other of the other alignment class: __add__ ('Concatenates sequence data for same names') builds self.__class__, so the rows are the concatenated rows and the class is that of the left operand; both operands carry the same moltype",
     "gap characters for omit_gap_pos are the moltype's gaps ('-' and '?'); get_degapped_relative_to and no_degenerates(allow_gap) use '-' only (as implemented and pinned by tests)",
     "sample is driven through its randint/permutation arguments with indices chosen by the generator",
     "collections: degap removes '-' and '?' on both styles (test_degap / test_sequence_collection_degap: 'ATGRY?' -> 'ATGRY'); the same holds for Alignment.degap used on the way back from an alignment",
@@ -57,9 +60,10 @@ ASSUMPTIONS = [
     "collections: the new style offers no alignment class through make_aligned_seqs, so 'to an alignment and back' goes through the old-style Alignment/ArrayAlignment built from to_dict() for both styles, and the new-style collection is rebuilt from the degapped rows",
 ]
 
+# nucleic acid rows draw from the full IUPAC set of degenerate symbols (N last: the collections sub-check uses degen[-1])
 ALPH = {
-    "dna": ("ACGT", "ACGTRYN", "-", "?"),
-    "rna": ("ACGU", "ACGURYN", "-", "?"),
+    "dna": ("ACGT", "ACGTRYMKWSBDHVN", "-", "?"),
+    "rna": ("ACGU", "ACGURYMKWSBDHVN", "-", "?"),
     "protein": ("ACDEFGHIKLMNPQRSTVWY", "ACDEFGHIKLMNPQRSTVWYBXZ", "-", "?"),
 }
 DNA_COMP = dict(zip("ACGTRYMKWSBDHVN-?", "TGCAYRKMWSVHDBN-?"))
@@ -121,9 +125,12 @@ def m_apply(rows: dict, mt: str, op: dict):
     if kind == "sample":
         m = op["motif"]
         return {n: "".join(s[k * m : (k + 1) * m] for k in op["locs"]) for n, s in rows.items()}, mt
-    if kind == "add":
+    if kind in ("add", "add_other_class"):
         other = op["other"]
         return {n: rows[n] + other[n] for n in names}, mt
+    if kind == "column":
+        i = op["i"]
+        return {n: s[i] for n, s in rows.items()}, mt
     if kind == "add_self":
         return {n: rows[n] + rows[n] for n in names}, mt
     if kind in ("to_array", "to_annotatable", "copy", "deepcopy"):
@@ -176,7 +183,7 @@ def histories(draw):
         L = len(cur[names[0]])
         kinds = ["slice"] * 4 + ["take_seqs", "take_positions", "take_positions", "take_positions_if", "omit_gap_pos", "omit_gap_pos",
                                  "no_degenerates", "degapped_relative_to", "sample", "add", "add_self", "to_array", "to_annotatable",
-                                 "copy", "deepcopy", "with_gaps_from"]
+                                 "copy", "deepcopy", "with_gaps_from", "column", "column", "add_other_class"]
         if cur_mt in ("dna", "rna"):
             kinds += ["rc", "rc", "rc", "to_rna" if cur_mt == "dna" else "to_dna"]
         kind = draw(st.sampled_from(kinds))
@@ -235,7 +242,13 @@ def histories(draw):
                 n = draw(st.integers(1, pop))
                 locs = list(draw(st.permutations(list(range(pop)))))
             op.update(motif=m, with_replacement=wr, n=n, locs=locs[:n] if wr else locs[:n], perm=locs)
-        elif kind == "add":
+        elif kind == "column":
+            if L < 1:
+                break
+            # an integer index -L .. L-1; the two ends in both spellings with raised probability
+            i = draw(st.sampled_from([0, -1, L - 1, -L])) if draw(st.booleans()) else draw(st.integers(-L, L - 1))
+            op.update(i=i)
+        elif kind in ("add", "add_other_class"):
             L2 = draw(st.integers(1, 8))
             other = draw(aln_st(cur_mt, len(names), L2, names=names))
             op.update(other=other)
@@ -291,8 +304,14 @@ def r_apply(aln, op, mt):
     if kind == "add":
         other = make_aligned_seqs(dict(op["other"]), moltype=mt, array_align=type(aln).__name__ == "ArrayAlignment")
         return aln + other
+    if kind == "add_other_class":
+        # the right operand is of the other alignment class; the result is documented to be of the class of self
+        other = make_aligned_seqs(dict(op["other"]), moltype=mt, array_align=type(aln).__name__ != "ArrayAlignment")
+        return aln + other
     if kind == "add_self":
         return aln + aln
+    if kind == "column":
+        return aln[op["i"]]
     if kind == "to_array":
         return aln.to_type(array_align=True)
     if kind == "to_annotatable":
@@ -409,7 +428,12 @@ def exec_history(case) -> Soft:
             cur_cls = type(aln).__name__
             if kind == "with_gaps_from" and cur_cls != "Alignment":
                 continue  # method of the annotatable class only
-            if kind == "take_positions" and rows and any(c >= len(next(iter(rows.values()))) for c in op["cols"]):
+            cur_L = len(next(iter(rows.values()))) if rows else 0
+            if (
+                (kind == "take_positions" and any(c >= cur_L for c in op["cols"]))
+                or (kind == "column" and not -cur_L <= op["i"] < cur_L)
+                or (kind == "sample" and any((k + 1) * op["motif"] > cur_L for k in list(op["locs"]) + list(op["perm"])))
+            ):
                 # columns were drawn for the history as generated; this class skipped a step
                 # (with_gaps_from) and has fewer columns left
                 s.cls("op-skipped:columns-beyond-current-length")
@@ -419,6 +443,9 @@ def exec_history(case) -> Soft:
             tag = f"{cur_cls}/{kind}"
             if kind == "take_positions" and op["negate"]:
                 tag += "[negate]"
+            if kind == "column" and op["i"] < 0:
+                # circumstance tags: the last column spelled -1 is the one spelling whose naive slice [i:i+1] ends at 0
+                tag += "[minus-one]" if op["i"] == -1 else "[negative]"
             ok, res = s.call(tag, r_apply, aln, op, mt)
             if not ok:
                 break
@@ -434,6 +461,8 @@ def exec_history(case) -> Soft:
                 break
             if not observe(s, tag, res, new_rows, what):
                 break
+            if kind == "add_other_class":
+                s.eq(type(res).__name__, cur_cls, tag + "/class", what)
             # non-triviality
             if cur_cls == "Alignment" and i >= 1:
                 prev = [h.split("(")[0] for h in hist[:-1]]
@@ -472,7 +501,7 @@ def _brief(op):
     k = op["op"]
     if k == "slice":
         return f"slice({op['a']},{op['b']})"
-    if k in ("add", "with_gaps_from"):
+    if k in ("add", "add_other_class", "with_gaps_from"):
         return f"{k}(…)"
     return k + "(" + ",".join(f"{a}={v}" for a, v in op.items() if a not in ("op", "perm")) + ")"
 
@@ -912,7 +941,7 @@ FUZZ = {
 
 META = {
     "technique": "Hypothesis-generated operation histories applied to both alignment classes (sub-check histories) and to the old-style and new-style unaligned SequenceCollection (sub-check collections) and to a dict-of-(gapped)-strings model; method differential result vs fresh object",
-    "level_text": "A few thousand generated histories per run (slicing inside gap runs, rc, row/column selection, gap and degenerate filters, degapping relative to a row, index-driven sampling, concatenation, class and moltype conversion) are executed on the annotatable and the array-backed class and compared after every step with plain string operations; 18 read-only methods of the final object are compared with a freshly built object. A second set of a few thousand histories (rc, take_seqs, take_seqs_if, rename_seqs, DNA/RNA conversion, degap, add_seqs with positions, pad_seqs, copy/deepcopy, to an alignment and back) runs on ragged unaligned collections of the old and the new style with names, num_seqs, to_dict, get_lengths, is_ragged, moltype and every get_seq compared after each step, the receiver checked for being unchanged, and 15 read-only calls compared with a fresh collection.",
+    "level_text": "A few thousand generated histories per run (slicing inside gap runs, integer column indexing from either end, rc, row/column selection, gap and degenerate filters, degapping relative to a row, index-driven sampling, concatenation within and across the two classes, class and moltype conversion) are executed on the annotatable and the array-backed class and compared after every step with plain string operations; 18 read-only methods of the final object are compared with a freshly built object. A second set of a few thousand histories (rc, take_seqs, take_seqs_if, rename_seqs, DNA/RNA conversion, degap, add_seqs with positions, pad_seqs, copy/deepcopy, to an alignment and back) runs on ragged unaligned collections of the old and the new style with names, num_seqs, to_dict, get_lengths, is_ragged, moltype and every get_seq compared after each step, the receiver checked for being unchanged, and 15 read-only calls compared with a fresh collection.",
     "level_note": "Trusts the row models (about 80 lines for alignments, about 70 for collections). Collections: unknown/repeated names in take_seqs, non-injective renamers, protein rc, annotation databases and the names setter of the new style are outside the driven domain. Strides and out-of-range slices are outside the domain; generic filtered() predicates are covered through omit_gap_pos/no_degenerates.",
     "design_ref": "DESIGN.md section 1, C03",
 }
